@@ -978,9 +978,12 @@ fn layers(n: usize) -> bool {
         let mut rng = Rng(master.next() | 1);
         let (mut k, mut r) = cfgs[rng.below(cfgs.len())]; let mut sb = [2usize, 64, 66, 100, 128][rng.below(5)];
         let mut log = format!("new({}, {}, {})", k, r, sb);
+        // the selection rule as the property states it (not the crate's own function): which dedicated codec the default one must equal
+        let rule = |k: usize, r: usize| { let (pk, pr) = (k.next_power_of_two(), r.next_power_of_two()); if pk > pr || (pk == pr && k <= r) { Codec::High } else { Codec::Low } };
         macro_rules! bad { ($what:expr) => {{ println!("FAIL layers history #{}: {} :: {}", h, log, $what); return false; }} }
         if rng.below(2) == 0 {
             let (Ok(mut a), Ok(mut b)) = (ReedSolomonEncoder::new(k, r, sb), DefaultRateEncoder::<DefaultEngine>::new(k, r, sb, DefaultEngine::new(), None)) else { bad!("new failed") };
+            let mut dirty = false;      // shards of an unfinished round are still in the objects: no fresh-codec comparison then
             for _round in 0..(2 + rng.below(3)) {
                 let data = rand_data_z(&mut rng, k, sb);
                 let take = if rng.below(4) == 0 { rng.below(k + 1) } else { k };
@@ -993,20 +996,28 @@ fn layers(n: usize) -> bool {
                     let x = a.encode().map(|res| res.recovery_iter().map(|s| s.to_vec()).collect::<Vec<_>>());
                     let y = b.encode().map(|res| res.recovery_iter().map(|s| s.to_vec()).collect::<Vec<_>>());
                     log += " encode"; calls += 1; if x != y { bad!(format!("encode: {:?} vs {:?}", x.as_ref().map(|v| v.len()), y.as_ref().map(|v| v.len()))) }
-                } else { log += " (abandoned)"; }
+                    if !dirty && take == k {
+                        // a fresh dedicated codec of the rate the selection rule names, portable engine
+                        let want = enc_with(rule(k, r), NoSimd::new(), k, r, &data);
+                        if x != want { bad!(format!("encode after this history differs from a fresh dedicated {:?} encoder", rule(k, r))) }
+                    }
+                    dirty = x.is_err();
+                } else { log += " (abandoned)"; dirty = dirty || take > 0; }
                 match rng.below(4) {
                     0 => {}
-                    1 => { let (x, y) = (a.reset(k, r, sb), b.reset(k, r, sb)); log += " reset(same)"; calls += 1; if x != y { bad!(format!("reset: {:?} vs {:?}", x, y)) } }
+                    1 => { let (x, y) = (a.reset(k, r, sb), b.reset(k, r, sb)); log += " reset(same)"; calls += 1; if x != y { bad!(format!("reset: {:?} vs {:?}", x, y)) } if x.is_ok() { dirty = false; } }
                     2 => { let bad_sb = [0usize, sb + 1][rng.below(2)]; let (x, y) = (a.reset(k, r, bad_sb), b.reset(k, r, bad_sb)); log += " !reset"; calls += 1; if x != y { bad!(format!("failing reset: {:?} vs {:?}", x, y)) } }
                     _ => { let c = cfgs[rng.below(cfgs.len())]; let nsb = [2usize, 64, 66, 100, 128][rng.below(5)]; let (x, y) = (a.reset(c.0, c.1, nsb), b.reset(c.0, c.1, nsb));
-                           log += &format!(" reset({}, {}, {})", c.0, c.1, nsb); calls += 1; if x != y { bad!(format!("reset: {:?} vs {:?}", x, y)) } if x.is_ok() { k = c.0; r = c.1; sb = nsb; } }
+                           log += &format!(" reset({}, {}, {})", c.0, c.1, nsb); calls += 1; if x != y { bad!(format!("reset: {:?} vs {:?}", x, y)) } if x.is_ok() { k = c.0; r = c.1; sb = nsb; dirty = false; } }
                 }
             }
         } else {
             let (Ok(mut a), Ok(mut b)) = (ReedSolomonDecoder::new(k, r, sb), DefaultRateDecoder::<DefaultEngine>::new(k, r, sb, DefaultEngine::new(), None)) else { bad!("new failed") };
+            let mut dirty = false;
             for _round in 0..(2 + rng.below(3)) {
                 let data = rand_data_z(&mut rng, k, sb);
                 let rec = enc_with(Codec::Default, NoSimd::new(), k, r, &data).unwrap();
+                let (mut go, mut gr): (Vec<(usize, Vec<u8>)>, Vec<(usize, Vec<u8>)>) = (vec![], vec![]);
                 let mut idx: Vec<usize> = (0..k + r).collect(); shuffle(&mut rng, &mut idx);
                 let take = if rng.below(4) == 0 { rng.below(k + 1) } else { k + rng.below(r + 1) };
                 for &p in idx.iter().take(take) {
@@ -1014,19 +1025,27 @@ fn layers(n: usize) -> bool {
                         log += " !add"; calls += 1; if x != y { bad!(format!("wrong-size add: {:?} vs {:?}", x, y)) } }
                     let (x, y) = if p < k { (a.add_original_shard(p, &data[p]), b.add_original_shard(p, &data[p])) } else { (a.add_recovery_shard(p - k, &rec[p - k]), b.add_recovery_shard(p - k, &rec[p - k])) };
                     calls += 1; if x != y { bad!(format!("add {}: {:?} vs {:?}", p, x, y)) }
+                    if !dirty && x.is_err() { bad!(format!("add {} on a clean decoder returned {:?}", p, x)) }
+                    if p < k { go.push((p, data[p].clone())) } else { gr.push((p - k, rec[p - k].clone())) }
                 }
                 log += &format!(" add*{}", take);
                 if rng.below(4) > 0 {
                     let x = a.decode().map(|res| res.restored_original_iter().map(|(i, s)| (i, s.to_vec())).collect::<Vec<_>>());
                     let y = b.decode().map(|res| res.restored_original_iter().map(|(i, s)| (i, s.to_vec())).collect::<Vec<_>>());
                     log += " decode"; calls += 1; if x != y { bad!(format!("decode: {:?} vs {:?}", x.as_ref().map(|v| v.len()), y.as_ref().map(|v| v.len()))) }
-                } else { log += " (abandoned)"; }
+                    if !dirty {
+                        // a fresh dedicated codec of the rate the selection rule names, portable engine, the same shards
+                        let want = dec_with(rule(k, r), NoSimd::new(), k, r, sb, &go, &gr);
+                        if x != want { bad!(format!("decode after this history differs from a fresh dedicated {:?} decoder", rule(k, r))) }
+                    }
+                    dirty = x.is_err() && take > 0;
+                } else { log += " (abandoned)"; dirty = dirty || take > 0; }
                 match rng.below(4) {
                     0 => {}
-                    1 => { let (x, y) = (a.reset(k, r, sb), b.reset(k, r, sb)); log += " reset(same)"; calls += 1; if x != y { bad!(format!("reset: {:?} vs {:?}", x, y)) } }
+                    1 => { let (x, y) = (a.reset(k, r, sb), b.reset(k, r, sb)); log += " reset(same)"; calls += 1; if x != y { bad!(format!("reset: {:?} vs {:?}", x, y)) } if x.is_ok() { dirty = false; } }
                     2 => { let bad_sb = [0usize, sb + 1][rng.below(2)]; let (x, y) = (a.reset(k, r, bad_sb), b.reset(k, r, bad_sb)); log += " !reset"; calls += 1; if x != y { bad!(format!("failing reset: {:?} vs {:?}", x, y)) } }
                     _ => { let c = cfgs[rng.below(cfgs.len())]; let nsb = [2usize, 64, 66, 100, 128][rng.below(5)]; let (x, y) = (a.reset(c.0, c.1, nsb), b.reset(c.0, c.1, nsb));
-                           log += &format!(" reset({}, {}, {})", c.0, c.1, nsb); calls += 1; if x != y { bad!(format!("reset: {:?} vs {:?}", x, y)) } if x.is_ok() { k = c.0; r = c.1; sb = nsb; } }
+                           log += &format!(" reset({}, {}, {})", c.0, c.1, nsb); calls += 1; if x != y { bad!(format!("reset: {:?} vs {:?}", x, y)) } if x.is_ok() { k = c.0; r = c.1; sb = nsb; dirty = false; } }
                 }
             }
         }
